@@ -52,6 +52,7 @@ def dag_programs(
     consistent_ignored_defaults: bool = False,
     shuffle_names: bool = False,
     allow_none: bool = False,
+    allow_attr_picker: bool = False,
 ):
     n_roots = draw(st.integers(1, 4))
     roots = [f"r{i}" for i in range(n_roots)]
@@ -92,7 +93,7 @@ def dag_programs(
                 sig_defaults[p] = f"IGN{p}" if consistent_ignored_defaults else f"IGN{f}{p}"
             if allow_bound and p not in pf_defaults and draw(st.integers(0, 6)) == 0:
                 bound[p] = f"B{f}{p}"  # (pipefunc documents: a parameter cannot be both bound and in defaults=)
-        picker = draw(st.sampled_from(["tuple", "dict"])) if n_out > 1 else None
+        picker = draw(st.sampled_from(["tuple", "dict"] + ["attr"] * bool(allow_attr_picker))) if n_out > 1 else None
         funcs.append(
             {
                 "name": f"f{f}",
@@ -179,6 +180,12 @@ def make_body(fn: dict, log, version: str = "", fail=None):
             return base
         if picker == "dict":
             return {o: out_value(oo, base) for o, oo in zip(outs, orig_outs)}
+        if picker == "attr":
+            # a named tuple whose field order is NOT the order of output_name, picked by attribute (output_picker=getattr)
+            import collections
+
+            rec = collections.namedtuple("Rec", list(reversed(outs)))
+            return rec(*[out_value(oo, base) for oo in reversed(orig_outs)])
         return tuple(out_value(oo, base) for oo in orig_outs)
 
     ps = []
@@ -209,6 +216,8 @@ def make_pipefunc(fn: dict, log, version: str = "", fail=None, **extra):
         kw["bound"] = dict(fn["bound"])
     if fn["picker"] == "dict":
         kw["output_picker"] = dict_picker
+    elif fn["picker"] == "attr":
+        kw["output_picker"] = getattr
     if fn.get("cache"):
         kw["cache"] = True
     if fn.get("resvar"):
@@ -291,7 +300,8 @@ class DagModel:
                 memo[fn["outs"][0]] = base
             else:
                 vals = [out_value(oo, base) for oo in fn["orig_outs"]]
-                raw[fn["name"]] = dict(zip(fn["outs"], vals)) if fn["picker"] == "dict" else tuple(vals)
+                raw[fn["name"]] = (dict(zip(fn["outs"], vals)) if fn["picker"] == "dict"
+                                   else tuple(reversed(vals)) if fn["picker"] == "attr" else tuple(vals))  # fmt: skip
                 for o, v in zip(fn["outs"], vals):
                     memo[o] = v
 
